@@ -206,7 +206,13 @@ let to_wreq (e : sexp) : M.wreq =
   | L [A "prim"; lo; hi; op; x; y] -> M.WPrim (to_z lo, to_z hi, to_z op, to_ratio x, to_ratio y)
   | _ -> failwith "bad fixed-width request"
 
-(* <id> <f32|f64|q|z|w|text|ty|c32|c64> <std|core|-> <request> *)
+let to_dwreq (e : sexp) : M.dwreq =
+  match e with
+  | L [A "to"; lo; hi; u; d; ks; kn; v] -> M.DWTo (to_z lo, to_z hi, to_ratios u, to_zlist d, to_ratio ks, to_ratio kn, to_z v)
+  | L [A "from"; lo; hi; u; d; ks; kn; s; n] -> M.DWFrom (to_z lo, to_z hi, to_ratios u, to_zlist d, to_ratio ks, to_ratio kn, to_z s, to_z n)
+  | _ -> failwith "bad integer duration request"
+
+(* <id> <f32|f64|q|z|w|dw|text|ty|c32|c64> <std|core|-> <request> *)
 let run (st : string) (lib : sexp) (r : sexp) : string =
   match st with
   | "f64" -> String.concat " " (List.map string_of_z (M.run64 (to_lib lib) (to_req to_z r)))
@@ -216,6 +222,7 @@ let run (st : string) (lib : sexp) (r : sexp) : string =
   | "q" -> String.concat " " (List.map string_of_q (M.q_run (to_req to_q r)))
   | "z" -> String.concat " " (List.map string_of_z (M.z_run (to_req to_z r)))
   | "w" -> String.concat " " (List.map string_of_z (M.w_run (to_wreq r)))
+  | "dw" -> String.concat " " (List.map string_of_z (M.dw_run (to_dwreq r)))
   | "text" -> String.concat " " (List.map string_of_z (M.text_run (to_treq r)))
   | "ty" -> String.concat " " (List.map string_of_z (M.typing_run (to_tyreq r)))
   | "c64" -> String.concat " " (List.map string_of_z (M.crun64 (to_lib lib) (to_creq r)))
